@@ -712,7 +712,7 @@ pub fn gen_c06(rng: &mut Rng, tier: Tier) -> NetProgram {
 
 pub fn gen_tasks_c04(rng: &mut Rng) -> Vec<TaskSpec> {
     let mut v = Vec::new();
-    for _ in 0..rng.small(3) {
+    for _ in 0..1 + rng.small(3) {
         let ns = 1 + rng.small(6) as usize;
         let steps = (0..ns)
             .map(|_| match rng.below(5) {
